@@ -337,6 +337,7 @@ func (g *Gen) Core() [][]Case {
 			blocks = append(blocks, []Case{a, va, ra, b}, []Case{vb, rb, va, ra})
 		}
 	case "c14":
+		blocks = append(blocks, g.RestakeMatrix()...)
 		blocks = append(blocks, g.ForeignAppStake())
 		// the documented special signers, once each with a good signature
 		nk := ro.Fresh[0]
@@ -571,4 +572,41 @@ func (g *Gen) ParamBlocks() [][]Case {
 			mk("after-restore-multisig3", m3send(), m3, origSend, ""),
 		},
 	}
+}
+
+// RestakeMatrix: node MsgStake messages for records that exist but are not ordinary staked nodes —
+// NodeU (unstaking completed: status Unstaked, record and output address kept), NodeW (Unstaking),
+// NodeJ (staked, jailed) — signed by a stranger naming itself as output, a stranger naming the
+// recorded output, the recorded output address, and the operator.  Only operator and recorded
+// output may act on a record on file; the two legitimate re-stakes come last.
+func (g *Gen) RestakeMatrix() [][]Case {
+	ro := g.Ro
+	stranger := ro.Rich[2]
+	var blocks [][]Case
+	for _, rec := range []struct {
+		name string
+		k    chain.Key
+	}{{"unstaked", ro.NodeU}, {"unstaking", ro.NodeW}, {"jailed", ro.NodeJ}} {
+		var b []Case
+		for _, c := range []struct {
+			name string
+			out  sdk.Address
+			by   chain.Key
+		}{
+			{"stranger-names-itself", stranger.Addr, stranger},
+			{"stranger-names-recorded-output", ro.OutU.Addr, stranger},
+			{"recorded-output", ro.OutU.Addr, ro.OutU},
+			{"operator", ro.OutU.Addr, rec.k},
+		} {
+			g.entropy++
+			msg := chain.MsgNodeStake(rec.k, NCStake, []string{chain.ChainHash}, "https://restake.example:443", c.out, nil)
+			fee := sdk.Coins{sdk.Coin{Denom: "upokt", Amount: sdk.NewInt(g.reqFor(msg))}}
+			cs := Case{Kind: fmt.Sprintf("core-restake-%s-by-%s/alt/good/fee-equal", rec.name, c.name), Variant: "-",
+				Raw: Build(TxSpec{Msg: msg, Fee: fee, Entropy: g.entropy, SignChain: g.ChainID, By: Single{c.by}})}
+			g.Sent = append(g.Sent, cs)
+			b = append(b, cs)
+		}
+		blocks = append(blocks, b)
+	}
+	return blocks
 }
